@@ -1518,7 +1518,8 @@ func (pc *PartitionContext) removeAllocation(release *si.AllocationRelease) ([]*
 				zap.String("nodeID", alloc.GetNodeID()))
 			continue
 		}
-		if release.TerminationType == si.TerminationType_PLACEHOLDER_REPLACED {
+		// a replacement confirmation for an allocation that has no replacement linked is a plain removal
+		if release.TerminationType == si.TerminationType_PLACEHOLDER_REPLACED && alloc.HasRelease() {
 			confirmed = alloc.GetRelease()
 			// we need to check the resources equality
 			delta := resources.Sub(confirmed.GetAllocatedResource(), alloc.GetAllocatedResource())
